@@ -4,6 +4,7 @@
 // the specification decides from the actual bytes).  No expected values.
 // usage: drv_names <names-hex-file> [--drop-privileges]   (NDJSON on stdout)
 #include <dirent.h>
+#include <sys/resource.h>
 #include <sys/stat.h>
 #include <unistd.h>
 
@@ -91,6 +92,11 @@ int main(int argc, char** argv) {
   }
   // VT_CLOSE_STDIN: the process runs as daemons do, with descriptor 0 closed before its first load (the first
   // file the loader opens then IS descriptor 0); VT_NO_LOCAL: the first load is a named one, not the local zone
+  // VT_FD_LIMIT=<n>: the process may hold at most n descriptors (a load that leaks one per failed name runs dry)
+  if (const char* fl = getenv("VT_FD_LIMIT")) {
+    struct rlimit rl;
+    if (getrlimit(RLIMIT_NOFILE, &rl) == 0) { rl.rlim_cur = (rlim_t)atoi(fl); setrlimit(RLIMIT_NOFILE, &rl); }
+  }
   if (getenv("VT_CLOSE_STDIN")) close(0);
   if (!getenv("VT_NO_LOCAL")) {
     time_zone l = local_time_zone();
@@ -114,12 +120,16 @@ int main(int argc, char** argv) {
       std::string line;
       while (std::getline(in, line)) lines.push_back(line);
     }
-    for (const std::string& line : lines) {
-      std::string name = unhex(line);
+    // what the file system holds for each name is recorded before any load (the recording needs descriptors of its own, and a
+    // load under test may have used them up)
+    std::vector<std::string> fsj;
+    for (const std::string& line : lines) fsj.push_back(fs_json(unhex(line)));
+    for (size_t i = 0; i < lines.size(); ++i) {
+      std::string name = unhex(lines[i]);
       time_zone tz;
       bool ok = load_time_zone(name, &tz);
       printf("{\"e\":\"Resolve\",\"env\":%s,\"name\":%s,\"ok\":%d,\"tzname\":%s,\"isutc\":%d,\"look\":%s,\"fs\":%s}\n", env_json().c_str(),
-             bj(name).c_str(), ok ? 1 : 0, bj(tz.name()).c_str(), tz == utc_time_zone() ? 1 : 0, looks(tz).c_str(), fs_json(name).c_str());
+             bj(name).c_str(), ok ? 1 : 0, bj(tz.name()).c_str(), tz == utc_time_zone() ? 1 : 0, looks(tz).c_str(), fsj[i].c_str());
     }
   };
   resolve_all(argv[1]);
